@@ -47,13 +47,14 @@ Qed.
 (* ---- _ensure_capacity *)
 Definition sgrown (nb c : nat) (v : svec) (l : list V) : svec :=
   if Nat.leb c (s_cap v) then v else mk_sv (repeat None NI) nb (slots l (2 * c)) (length l) (2 * c).
-Definition sgrow_evs (nb base c : nat) (v : svec) (l : list V) : list ev :=
+(* al = the allocator instance of the vector, nb = the name of the new block *)
+Definition sgrow_evs (al nb base c : nat) (v : svec) (l : list V) : list ev :=
   if Nat.leb c (s_cap v) then [] else
   EAlloc nb (esz * N.of_nat (2 * c)) :: xfer_evs (cont_nm NI base v) (heap_nm nb) 0 (length l)
-    ++ destroy_evs (cont_nm NI base v) 0 (length l) ++ free_ev (s_blk v).
+    ++ destroy_evs (cont_nm NI base v) 0 (length l) ++ free_ev al (s_blk v).
 
-Lemma sv_ensure_capacity_eq nb base c v l : sinv v l ->
-  sv_ensure_capacity esz NI nb base c v = Ok (sgrown nb c v l, grown_nb nb c (mk_vec 0 [] 0 (s_cap v)), sgrow_evs nb base c v l).
+Lemma sv_ensure_capacity_eq al nb base c v l : sinv v l ->
+  sv_ensure_capacity esz NI al nb base c v = Ok (sgrown (enc al nb) c v l, grown_nb nb c (mk_vec 0 [] 0 (s_cap v)), sgrow_evs al (enc al nb) base c v l).
 Proof.
   intros H. pose proof H as (Hs & Hc & Hn & C). unfold sv_ensure_capacity, sgrown, grown_nb, sgrow_evs. cbn [v_cap].
   destruct (Nat.leb c (s_cap v)) eqn:E; [reflexivity|]. apply Nat.leb_gt in E.
@@ -75,14 +76,14 @@ Lemma sgrown_nm nb c v l : sinv v l -> c <= s_cap v -> sgrown nb c v l = v.
 Proof. intros _ H. unfold sgrown. apply Nat.leb_le in H. now rewrite H. Qed.
 
 (* ---- push_back / emplace_back *)
-Lemma sv_push_eq nb base x v l : sinv v l ->
-  let g := sgrown nb (length l + 1) v l in
-  sv_push esz NI nb base x v = Ok (with_cont g (l ++ [x]), grown_nb nb (length l + 1) (mk_vec 0 [] 0 (s_cap v)),
-                                   sgrow_evs nb base (length l + 1) v l ++ [EConstruct (cont_nm NI base g (length l))]).
+Lemma sv_push_eq al nb base x v l : sinv v l ->
+  let g := sgrown (enc al nb) (length l + 1) v l in
+  sv_push esz NI al nb base x v = Ok (with_cont g (l ++ [x]), grown_nb nb (length l + 1) (mk_vec 0 [] 0 (s_cap v)),
+                                   sgrow_evs al (enc al nb) base (length l + 1) v l ++ [EConstruct (cont_nm NI base g (length l))]).
 Proof.
   intros H g. unfold sv_push. pose proof H as (Hs & _). rewrite Hs.
-  rewrite (sv_ensure_capacity_eq nb base (length l + 1) v l H). cbn [bind]. fold g.
-  destruct (sgrown_inv nb (length l + 1) v l H) as (G & Gc). fold g in G, Gc.
+  rewrite (sv_ensure_capacity_eq al nb base (length l + 1) v l H). cbn [bind]. fold g.
+  destruct (sgrown_inv (enc al nb) (length l + 1) v l H) as (G & Gc). fold g in G, Gc.
   pose proof G as (Gs & _). rewrite (sinv_cont g l G), Gs.
   rewrite construct_slots by lia. cbn [bind]. unfold with_cont. rewrite app_length. cbn [length].
   now rewrite Nat.add_1_r.
@@ -112,14 +113,14 @@ Definition sresize_evs (nb base n : nat) (v : svec) (l : list V) : list ev :=
   if Nat.ltb n (length l) then destroy_evs (cont_nm NI base g) n (length l - n)
   else fill_evs (cont_nm NI base g) (length l) (n - length l).
 
-Lemma sv_resize_eq nb base n x v l : sinv v l ->
-  sv_resize esz NI nb base n x v =
-  Ok (with_cont (sgrown nb n v l) (resized_list n x l), grown_nb nb n (mk_vec 0 [] 0 (s_cap v)),
-      sgrow_evs nb base n v l ++ sresize_evs nb base n v l).
+Lemma sv_resize_eq al nb base n x v l : sinv v l ->
+  sv_resize esz NI al nb base n x v =
+  Ok (with_cont (sgrown (enc al nb) n v l) (resized_list n x l), grown_nb nb n (mk_vec 0 [] 0 (s_cap v)),
+      sgrow_evs al (enc al nb) base n v l ++ sresize_evs (enc al nb) base n v l).
 Proof.
   intros H. unfold sv_resize, sresize_evs.
-  rewrite (sv_ensure_capacity_eq nb base n v l H). cbn [bind].
-  destruct (sgrown_inv nb n v l H) as (G & Gc). set (g := sgrown nb n v l) in *.
+  rewrite (sv_ensure_capacity_eq al nb base n v l H). cbn [bind].
+  destruct (sgrown_inv (enc al nb) n v l H) as (G & Gc). set (g := sgrown (enc al nb) n v l) in *.
   pose proof G as (Gs & Gl & _). rewrite (sinv_cont g l G), Gs. unfold resized_list.
   destruct (Nat.ltb n (length l)) eqn:E.
   - apply Nat.ltb_lt in E. rewrite destroy_loop_slots_tail by lia. cbn [bind].
@@ -134,10 +135,10 @@ Proof.
 Qed.
 
 (* ---- destructor *)
-Lemma sv_destruct_eq base v l : sinv v l ->
-  sv_destruct esz NI base v =
+Lemma sv_destruct_eq al base v l : sinv v l ->
+  sv_destruct esz NI al base v =
   Ok (repeat None NI, destroy_evs (cont_nm NI base v) 0 (length l)
-                      ++ (if is_small NI v then [] else [EDealloc (s_blk v) (esz * N.of_nat (s_cap v))])).
+                      ++ (if is_small NI v then [] else [EDealloc (reenc al (s_blk v)) (esz * N.of_nat (s_cap v))])).
 Proof.
   intros H. pose proof H as (Hs & Hc & Hn & C). unfold sv_destruct. rewrite Hs, (sinv_cont v l H).
   rewrite destroy_loop_slots_all by lia. cbn [bind]. do 2 f_equal.
@@ -149,16 +150,16 @@ Qed.
 (* ---- copy construction into storage whose inline slots are raw *)
 Definition scopied (nb : nat) (l : list V) : svec :=
   with_cont (sgrown nb (length l) (sv_empty NI (repeat None NI)) []) l.
-Lemma sv_copy_ctor_eq nb base obase o l : sinv o l ->
-  let g := sgrown nb (length l) (sv_empty NI (repeat None NI)) [] in
-  sv_copy_ctor esz NI nb base obase (repeat None NI) o =
-  Ok (scopied nb l, grown_nb nb (length l) (mk_vec 0 [] 0 NI),
-      sgrow_evs nb base (length l) (sv_empty NI (repeat None NI)) []
+Lemma sv_copy_ctor_eq al nb base obase o l : sinv o l ->
+  let g := sgrown (enc al nb) (length l) (sv_empty NI (repeat None NI)) [] in
+  sv_copy_ctor esz NI al nb base obase (repeat None NI) o =
+  Ok (scopied (enc al nb) l, grown_nb nb (length l) (mk_vec 0 [] 0 NI),
+      sgrow_evs al (enc al nb) base (length l) (sv_empty NI (repeat None NI)) []
       ++ xfer_evs (cont_nm NI obase o) (cont_nm NI base g) 0 (length l)).
 Proof.
   intros H g. pose proof H as (Hs & Hc & _). unfold sv_copy_ctor. rewrite Hs.
-  rewrite (sv_ensure_capacity_eq nb base (length l) _ [] sinv_empty). cbn [bind]. fold g.
-  destruct (sgrown_inv nb (length l) _ [] sinv_empty) as (G & Gc). fold g in G, Gc.
+  rewrite (sv_ensure_capacity_eq al nb base (length l) _ [] sinv_empty). cbn [bind]. fold g.
+  destruct (sgrown_inv (enc al nb) (length l) _ [] sinv_empty) as (G & Gc). fold g in G, Gc.
   rewrite (sinv_cont o l H), (sinv_cont g [] G). rewrite slots_nil. unfold slots at 1.
   rewrite xfer_loop_slots by lia. cbn [bind]. reflexivity.
 Qed.
@@ -352,8 +353,8 @@ Fixpoint sref_ok (rs : rstate) (ops : list sop) : Prop :=
 
 Definition srel (st : sst) (rs : rstate) : Prop := forall r, sinv (sregs st r) (rs r).
 
-Lemma srel_set rg nb nb' rs r v l : srel (mk_sst rg nb) rs -> sinv v l ->
-  srel (mk_sst (set_reg rg r v) nb') (set_reg rs r l).
+Lemma srel_set rg al al' nb nb' rs r v l : srel (mk_sst rg al nb) rs -> sinv v l ->
+  srel (mk_sst (set_reg rg r v) al' nb') (set_reg rs r l).
 Proof. intros H Hv k. cbn [sregs]. unfold set_reg. destruct (Nat.eqb k r); [exact Hv | apply (H k)]. Qed.
 
 Lemma sstep_refines st rs o : srel st rs -> sref_pre rs o ->
@@ -362,9 +363,9 @@ Lemma sstep_refines st rs o : srel st rs -> sref_pre rs o ->
   | None => sstep esz NI st o = AssertStop
   end.
 Proof.
-  intros R P. destruct st as [rg nb]. pose proof R as R0. unfold srel in R0. cbn [sregs] in R0.
-  destruct o as [r x|r x|r x|r|r n x|r|r|r i|r s|r s|r s]; cbn [sstep sregs snextb sref_step sref_pre] in *.
-  1-3: rewrite (sv_push_eq nb (base_of NI r) x (rg r) (rs r) (R0 r)); cbn [bind]; do 2 eexists; split; [reflexivity|];
+  intros R P. destruct st as [rg al nb]. pose proof R as R0. unfold srel in R0. cbn [sregs] in R0.
+  destruct o as [r x|r x|r x|r|r n x|r|r|r i|r s|r s|r s]; cbn [sstep sregs sals snextb sref_step sref_pre] in *.
+  1-3: rewrite (sv_push_eq (al r) nb (base_of NI r) x (rg r) (rs r) (R0 r)); cbn [bind]; do 2 eexists; split; [reflexivity|];
        eapply srel_set; [exact R | apply sv_pushed_inv, R0].
   - (* pop_back *)
     destruct (rs r) as [|a l0] eqn:E.
@@ -374,7 +375,7 @@ Proof.
       rewrite (sv_pop_eq (base_of NI r) (rg r) l x Hr). cbn [bind]. rewrite E', removelast_last.
       do 2 eexists; split; [reflexivity|]. eapply srel_set; [exact R | eapply sv_popped_inv; exact Hr].
   - (* resize *)
-    rewrite (sv_resize_eq nb (base_of NI r) n x (rg r) (rs r) (R0 r)). cbn [bind].
+    rewrite (sv_resize_eq (al r) nb (base_of NI r) n x (rg r) (rs r) (R0 r)). cbn [bind].
     do 2 eexists; split; [reflexivity|]. eapply srel_set; [exact R | apply sv_resized_inv, R0].
   - (* front *)
     rewrite (sv_front_eq (rg r) (rs r) (R0 r)). destruct (rs r) as [|x l]; [reflexivity|]. cbn [bind].
@@ -391,27 +392,27 @@ Proof.
     do 2 eexists; split; [reflexivity | exact R].
   - (* copy construction *)
     destruct (Nat.eqb r s) eqn:E; [do 2 eexists; split; [reflexivity | exact R]|].
-    rewrite (sv_destruct_eq (base_of NI r) (rg r) (rs r) (R0 r)). cbn [bind].
-    rewrite (sv_copy_ctor_eq nb (base_of NI r) (base_of NI s) (rg s) (rs s) (R0 s)). cbn [bind].
+    rewrite (sv_destruct_eq (al r) (base_of NI r) (rg r) (rs r) (R0 r)). cbn [bind].
+    rewrite (sv_copy_ctor_eq (al s) nb (base_of NI r) (base_of NI s) (rg s) (rs s) (R0 s)). cbn [bind].
     do 2 eexists; split; [reflexivity|]. eapply srel_set; [exact R | apply scopied_inv].
   - (* move construction *)
     destruct (Nat.eqb r s) eqn:E; [do 2 eexists; split; [reflexivity | exact R]|].
-    rewrite (sv_destruct_eq (base_of NI r) (rg r) (rs r) (R0 r)). cbn [bind].
+    rewrite (sv_destruct_eq (al r) (base_of NI r) (rg r) (rs r) (R0 r)). cbn [bind].
     rewrite (sv_swap_eq (base_of NI r) (base_of NI s) _ (rg s) [] (rs s) sinv_empty (R0 s)). cbn [bind].
     do 2 eexists; split; [reflexivity|].
-    eapply srel_set with (nb := nb); [eapply srel_set with (nb := nb) (nb' := nb); [exact R | apply swapped_inv, R0] | apply swapped_inv, sinv_empty].
+    eapply srel_set with (al := al) (nb := nb); [eapply srel_set with (al := al) (al' := al) (nb := nb) (nb' := nb); [exact R | apply swapped_inv, R0] | apply swapped_inv, sinv_empty].
   - (* swap *)
     destruct (Nat.eqb r s) eqn:E; [do 2 eexists; split; [reflexivity | exact R]|].
     rewrite (sv_swap_eq (base_of NI r) (base_of NI s) (rg r) (rg s) (rs r) (rs s) (R0 r) (R0 s)). cbn [bind].
     do 2 eexists; split; [reflexivity|].
-    eapply srel_set with (nb := nb); [eapply srel_set with (nb := nb) (nb' := nb); [exact R | apply swapped_inv, R0] | apply swapped_inv, R0].
+    eapply srel_set with (al := al) (nb := nb); [eapply srel_set with (al := al) (al' := al) (nb := nb) (nb' := nb); [exact R | apply swapped_inv, R0] | apply swapped_inv, R0].
 Qed.
 
 Lemma sstep_pre_exact st rs o : srel st rs -> ~ sref_pre rs o -> sstep esz NI st o = UB.
 Proof.
-  intros R P. destruct st as [rg nb]. pose proof R as R0. unfold srel in R0. cbn [sregs] in R0.
+  intros R P. destruct st as [rg al nb]. pose proof R as R0. unfold srel in R0. cbn [sregs] in R0.
   destruct o as [r x|r x|r x|r|r n x|r|r|r i|r s|r s|r s]; cbn [sref_pre] in P; try (exfalso; apply P; exact I).
-  cbn [sstep sregs]. rewrite (sv_index_eq (rg r) (rs r) i (R0 r)).
+  cbn [sstep sregs sals]. rewrite (sv_index_eq (rg r) (rs r) i (R0 r)).
   destruct (Nat.ltb i (length (rs r))) eqn:E; [apply Nat.ltb_lt in E; contradiction | reflexivity].
 Qed.
 
